@@ -123,6 +123,12 @@ class PrefixedCtx:
     def body_of(self, f): return self._c.body_of(f)
 
 
+def fresh_ctx(ctx, pid=None):
+    """an empty context of the runner's own class (for running another property's rules aside and importing some of their obligations)"""
+    while isinstance(ctx, PrefixedCtx): ctx = ctx._c
+    return type(ctx)(pid or ctx.pid, ctx.fx, ctx.tier, ctx.config)
+
+
 def arm(arms, other, k):
     """target of variant k of a two-variant enum switch: listed arm, else the `otherwise` edge"""
     return arms.get(k, other)
